@@ -385,7 +385,7 @@ pub fn themed() -> Vec<(&'static str, Vec<&'static str>)> {
         ("templates", vec!["<template>", "</template>", "<tr>", "<td>", "<col>", "<div>", "x", "<table>", "</table>", "<frameset>", "<body>", "<head>", "</body>", "</html>"]),
         ("foreign", vec!["<svg>", "<math>", "<foreignObject>", "<desc>", "<mi>", "<annotation-xml encoding=text/html>", "<annotation-xml>", "<p>", "<b>", "</p>", "</svg>", "</math>", "x", "\0", "<table>", "<font color=r>", "<mglyph>", "<![CDATA[x]]>", "</x>", "<svg/>", "</foreignObject>", "</mi>", "<x>"]),
         ("skeleton", vec!["<html>", "<head>", "<body>", "</head>", "</body>", "</html>", "<frameset>", "</frameset>", "<frame>", "<noframes>", "</noframes>", "x", " ", "<!--c-->", "<!DOCTYPE html>", "<title>", "<meta>", "<template>", "<br>", "<input type=hidden>", "<p>"]),
-        ("lists", vec!["<ul>", "<li>", "<dd>", "<dt>", "</li>", "</ul>", "<p>", "<div>", "<address>", "<button>", "</p>", "x", "<h1>", "<h2>", "</h1>", "<option>", "<ruby>", "<rt>", "<rtc>", "<rb>"]),
+        ("lists", vec!["<ul>", "<li>", "<dd>", "<dt>", "</li>", "</ul>", "</dd>", "</dt>", "<ol>", "</ol>", "<p>", "<div>", "<address>", "<button>", "</p>", "x", "<h1>", "<h2>", "</h1>", "<option>", "<ruby>", "<rt>", "<rtc>", "<rb>"]),
         ("forms", vec!["<form>", "</form>", "<div>", "</div>", "<input>", "<button>", "<template>", "</template>", "<table>", "<tr>", "x", "<fieldset>", "<textarea>", "</textarea>"]),
         ("pre-lf", vec!["<pre>", "<listing>", "<textarea>", "\n", "x", "</>", "</pre>", "</textarea>", "<!--c-->", "\r\n", "<b>", "\0"]),
         ("select", vec!["<select>", "</select>", "<option>", "<option selected>", "</option>", "<optgroup>", "<selectedcontent>", "</selectedcontent>", "<button>", "</button>", "<hr>", "<input>", "x", "<b>", "<select multiple>", "<div>", "<table>", "<template>"]),
